@@ -54,6 +54,11 @@ def make_case(index, rng, tier):
     if index < len(fl):
         return {"msgs": [b2j(m) for m in fl[index]], "cfg": {}, "floor": True, "eof_at": None,
                 "seg": ["max", "bytes1", "k"][index % 3]}
+    grid = httpgen.grid_streams()
+    if index - len(fl) < 3 * len(grid):
+        g = index - len(fl)
+        return {"msgs": [b2j(m) for m in grid[g % len(grid)]], "cfg": {}, "floor": False, "eof_at": None, "grid": True,
+                "seg": ["max", "bytes1", "k"][g // len(grid)]}
     msgs = httpgen.gen_stream(rng, 4, hostile=True)
     cfg = rng.choice(CFGS)
     if cfg.get("proxy_protocol") and rng.randrange(2):
